@@ -11,7 +11,8 @@
 (* view status: 0 absent, 1 alive, 2 leaving, 3 left, 4 failed                   *)
 EXTENDS Integers, Sequences, FiniteSets, TLC
 
-CONSTANTS NN, MaxOps
+CONSTANTS NN, MaxOps,
+          Snap        \* TRUE: every node keeps a snapshot file and re-joins the members it last knew alive when restarted
 Nodes == 0..(NN - 1)
 
 VARIABLES st, comp, know, part, ops, last, M
@@ -25,12 +26,14 @@ Blank == [x \in Nodes |-> 0]
 
 \* A restart after a CRASH is found again by its old peers (their reconnect loop dials failed members), so
 \* it comes back into its old cluster; a start after a graceful leave (or a first start) is a fresh node
-\* that nobody dials: its old peers keep what they knew about the previous incarnation.
+\* that nobody dials: its old peers keep what they knew about the previous incarnation.  With a snapshot a
+\* crashed node also re-joins by itself the members it last knew alive (handleRejoin); a snapshot that ends
+\* with a graceful leave re-joins nobody.
 Finders(x) == { m \in Nodes \ {x} : st[m] = 1 /\ know[m][x] = 3 }
 Start(x) ==
   /\ st[x] # 1
   /\ st' = [st EXCEPT ![x] = 1]
-  /\ IF st[x] = 3 /\ Finders(x) # {}
+  /\ IF st[x] = 3 /\ (Finders(x) # {} \/ (Snap /\ \E m \in Nodes \ {x} : st[m] = 1 /\ know[x][m] = 1))
        THEN LET grp == { m \in comp[x] : st[m] = 1 } \cup {x} IN
             /\ comp' = comp
             /\ know' = [n \in Nodes |-> IF n = x THEN [m \in Nodes |-> IF m \in grp THEN 1 ELSE 0]
